@@ -26,6 +26,8 @@ def norm(ev):
     cov = dict(ev["coverage"])
     for k in ("samples", "runs_per_hour", "batches"):
         cov.pop(k, None)
+    if isinstance(cov.get("simulated_time"), dict):
+        cov["simulated_time"] = {k: v for k, v in cov["simulated_time"].items() if k != "events_per_hour"}
     b = {k: {kk: vv for kk, vv in v.items() if kk != "wall_s"} for k, v in ev["coverage"].get("batches", {}).items()}
     cov["batches"] = b
     return json.dumps({"cov": cov, "violations": ev.get("violations")}, sort_keys=True)
